@@ -6,6 +6,9 @@ From DDP Require Import Alias.OMap.
 Section Trie.
 Variables K V : Type.
 Variable keq klt : K -> K -> bool.
+(* what the parser's key generator looks at: is a trie key a placeholder (ALIAS_PARAMETER), does a
+   call token start (here: is) an argument *)
+Variable isph isarg : K -> bool.
 
 Inductive trie := Node (val : option V) (children : list (K * trie)).
 
@@ -47,8 +50,33 @@ Definition lookup (t : trie) (ks : list K) : option V :=
 
 Definition opt_list (o : option V) : list V := match o with Some v => [v] | None => [] end.
 
-(* Search with a key generator that replays the query q from the cursor remembered per node
-   (what parser.alias does with start_indices): at depth d the generated key is q[d].
+(* The key generator of parser.alias (alias.go:29-78), with arguments abstracted to ONE token of an
+   argument class (INT, FLOAT, TRUE, FALSE, CHAR, STRING, IDENTIFIER, SYMBOL; the real generator also
+   swallows "-x" and a bracketed group as one argument): asked for the key to compare with the child
+   key ck while the call is at token q, it hands back ck ITSELF if ck is a placeholder and q is an
+   argument, and the call token q otherwise. Either way one call token is consumed. *)
+Definition gen_key (q ck : K) : K := if isph ck && isarg q then ck else q.
+(* Trie.Search descends into a child iff key_eq(generated key, child key) *)
+Definition kmatch (q ck : K) : bool := keq (gen_key q ck) ck.
+
+(* a call (prefix) instantiates a pattern: every placeholder of the pattern stands for an argument
+   (or an equal placeholder token), every other token is equal *)
+Fixpoint inst_prefix (ks q : list K) : bool :=
+  match ks, q with
+  | [], _ => true
+  | ck :: ks', k :: q' => kmatch k ck && inst_prefix ks' q'
+  | _ :: _, [] => false
+  end.
+Fixpoint instantiates (ks c : list K) : bool :=
+  match ks, c with
+  | [], [] => true
+  | ck :: ks', k :: c' => kmatch k ck && instantiates ks' c'
+  | _, _ => false
+  end.
+
+(* Search with that generator over the call tokens q, the cursor remembered per node (what
+   parser.alias does with start_indices): at depth d the call is at q[d]. EVERY matching child is
+   explored, in map order - a literal match does not exclude the placeholder siblings.
    None = the nil dereference of trie.go:115 (Get on a key being iterated returns nothing). *)
 Fixpoint search_seq (q : list K) (t : trie) : option (list V) :=
   match t with
@@ -60,7 +88,7 @@ Fixpoint search_seq (q : list K) (t : trie) : option (list V) :=
          match l with
          | [] => Some []
          | (ck, c) :: r =>
-           if keq k ck then
+           if kmatch k ck then
              match get keq klt ch ck with
              | None => None
              | Some _ =>
@@ -160,6 +188,10 @@ Arguments insert {K V}.
 Arguments contains {K V}.
 Arguments lookup {K V}.
 Arguments search_seq {K V}.
+Arguments gen_key {K}.
+Arguments kmatch {K}.
+Arguments inst_prefix {K}.
+Arguments instantiates {K}.
 Arguments copy {K V}.
 Arguments Declare {K V}.
 Arguments Lookup {K V}.
